@@ -177,7 +177,7 @@ pub fn gen_chain_workspace(c: &mut Choices) -> Workspace {
     push(
         &mut ws,
         "person",
-        format!("pub type {ty} {{\n  {ctor}({f1}: String, {f2}: Int)\n}}\n\npub fn new(n) {{\n  {ctor}({f1}: n, {f2}: 1)\n}}\n\npub fn first(p: {ty}) {{\n  p.{f1}\n}}\n"),
+        format!("pub type {ty} {{\n  {ctor}({f1}: String, {f2}: Int)\n}}\n\npub fn new(n) {{\n  {ctor}({f1}: n, {f2}: 1)\n}}\n\npub fn first(p: {ty}) {{\n  p.{f1}\n}}\n\npub fn alpha(n) {{\n  case n {{\n    0 -> new(\"a\")\n    _ -> beta(n - 1)\n  }}\n}}\n\npub fn beta(n) {{\n  {ctor}({f1}: alpha(n).{f1}, {f2}: n)\n}}\n"),
     );
     let mut prev = "person".to_string();
     let mut prev_fn = "new".to_string();
